@@ -1,6 +1,7 @@
 package trie
 
 import (
+	"strings"
 	"fmt"
 	"math/bits"
 
@@ -58,7 +59,34 @@ func nodeKinds(c *lp.Ctx) {
 
 // build emits the trie.new line and checks the all-or-nothing outcome for a
 // valid (strictly ascending) input.
+// refusedBuild: a build the builder must refuse AFTER it has already added nodes (a single-branch run too long for
+// the 16-bit step, deep in the second level), or at once (keys out of order).  Whatever a refused build leaves behind
+// (pooled creators, counters, caches) must not leak into the next build.
+func refusedBuild(c *lp.Ctx) {
+	if c.Rng.Intn(2) == 0 {
+		run := strings.Repeat("x", 40000)
+		keys := []string{"aa", "ab", "ac", "ad1", "ad2", "b" + run + "1", "b" + run + "2", "c", "ca", "cb"}
+		line := "trie.new ffff none"
+		for _, k := range keys {
+			line += " " + lp.XS(k)
+		}
+		if got := c.Do(line); got != "err:step-too-long" {
+			c.Violate(lp.Violation{What: "a single-branch run beyond the 16-bit step must be refused (no InnerPrefix)", Script: []string{line[:80] + "..."}, Expected: "err:step-too-long", Got: got})
+		}
+		c.Hit("history:refused-build(step-too-long),build")
+		return
+	}
+	line := "trie.new - none x61 x63 x62 x64"
+	if got := c.Do(line); got != "err:out-of-order" {
+		c.Violate(lp.Violation{What: "key list that is not strictly ascending must be rejected with ErrKeyOutOfOrder, ascending accepted", Script: []string{line}, Expected: "err:out-of-order", Got: got})
+	}
+	c.Hit("history:refused-build(out-of-order),build")
+}
+
 func build(c *lp.Ctx, cs *Case) bool {
+	if c.Rng.Intn(12) == 0 {
+		refusedBuild(c)
+	}
 	line := cs.Line()
 	ans := c.Do(line)
 	cs.Describe(c)
